@@ -315,7 +315,10 @@ fn run(ctx: &mut Ctx) {
                 if oi > 0 && foreign > 0 {
                     continue;
                 }
-                for &delay in &[0i64, 9_999, 10_000] {
+                for &delay in &[0i64, 9_999, 10_000, 159_000, 160_000, 165_000, 169_999, 320_000, 325_500, 1_605_000, 3_600_000, 86_400_000] {
+                    if delay > 10_000 && (oi > 0 || foreign > 0) {
+                        continue;
+                    }
                     job += 1;
                     if !ctx.mine(job) {
                         continue;
